@@ -28,4 +28,22 @@ pub(crate) mod verif_kani {
         let t = build_table_from_counts(&counts[..n], max_log, true);
         core::mem::forget(t);
     }
+
+    fn norm<const N: usize>() {
+        let counts: [usize; N] = kani::any();
+        let mut k = 0; while k < N { kani::assume(counts[k] <= 64); k += 1; }
+        kani::assume(counts[N - 1] > 0);
+        let max_log: u8 = kani::any();
+        kani::assume(max_log == 6 || max_log == 8 || max_log == 9);
+        let t = build_table_from_counts(&counts, max_log, true);
+        core::mem::forget(t);
+    }
+    #[kani::proof]
+    #[kani::unwind(258)]
+    #[kani::stub(build_table_from_probabilities, checking_stub)]
+    fn normalisation_contract_n1() { norm::<1>(); }
+    #[kani::proof]
+    #[kani::unwind(258)]
+    #[kani::stub(build_table_from_probabilities, checking_stub)]
+    fn normalisation_contract_n2() { norm::<2>(); }
 }
